@@ -49,6 +49,34 @@ PENDING = {
  "C17": "driver under construction (PUSH0 flag, contract selection)",
 }
 
+CHECKS.update({
+ "C08": (MC, "EVM", "TLC batch validation (CostTrace over EVMCost/EVM/Grid) of (input block, emitted block, criterion) triples and of contract totals recorded from the real pipeline",
+         "independent size and length, run-time gas on every grid state: emitted <= input in the chosen criterion; a changed block improves; the totals the tool accumulates equal the sums of its per-block figures (whole small contracts through the real optimize_asm_contract)",
+         "5 C08 and 13.1", "gas schedule of spec/EVMCost.tla (no memory expansion, no refunds); 'improves' uses gas on the generic state; pseudo-push widths by the tool's convention"),
+ "C09": (MC, "Skeleton", "TLC enumerates document shapes (SkeletonGen) and validates whole-file runs of the real CLI (SkeletonTrace over Skeleton/AsmDoc): skeleton equality, well-formed emitted items, metadata, re-parse",
+         "every tag, JUMPDEST, jump, terminal and split instruction with all fields in order; every emitted item judged by WellFormedItem against its input block; metadata projection equal; the tool's parser re-reads the output; 38 synthesized documents + shipped examples (quick), all 30 files x 3 policies (thorough)",
+         "5 C09", "blocks cut by skeleton items; under -storage stores belong to the skeleton; a run that writes no file is undecided (C10)"),
+ "C10": (MC, "Pipeline", "TLC checks the abstract pipeline model (Pipeline.tla: safety and liveness under fairness, with and without fault containment) and validates traces of the real pipeline (PipelineTrace) under natural and injected faults enumerated by PipelineFaults; budget check PipelineBudget",
+         "every block of the hand/generated corpus processed as its own document under the CPU/memory budget; contract traces with single-point faults (specification generation, search, comparison) must be behaviours of the model in which only the faulty block is emitted unchanged and the output exists; design-level: NoEscape, FailureCostsOneBlock, EveryBlockEmitted under weak fairness",
+         "5 C10", "TLA+ only compares measured wall/RSS with the budget; one faulty block per contract; greedy back-end"),
+ "C11": (MC, "Pipeline", "TLC enumerates log mutations (LogMutate); the real CLI/pipeline replays them; TLC validates replay traces (PipelineTrace), verdicts (ReplayVerdict/ReplayItems) and equivalence of every replayed block (EVMEquiv)",
+         "byte-identical replay of the recorded log on every driven input and option set; for every enumerated single mutation (substitution incl. foreign ids, deletion, duplication, transposition, insertion) the outcome is an error or a block TLC cannot distinguish from the input on the grid",
+         "5 C11", "equivalence on the boundary grid; undecided never alarms"),
+ "C12": (MC, "History", "TLC enumerates histories (Histories.tla) and validates the recorded result table (HistoryIndep.tla); abstract model HistoryModel.tla (no action reads hist; leaky variant refuted)",
+         "result(B | H) = result(B | empty) for all histories of length <= 1 (quick: plus a strided sample of length 2; thorough: all of length <= 2 plus a sample of length 3) over a 12-block pool chosen to touch distinct module state, several option sets, fresh process per history",
+         "5 C12", "fresh process = child forked from a worker that imported the tool but processed no block (cross-checked by exec'd processes); TLC's part is enumeration and equality"),
+ "C13": (MC, "History", "TLC lock-step comparison (Lockstep.tla) of the event traces of runs under different PYTHONHASHSEED values, processes, scratch directories and CPU load",
+         "specifications (identifiers included), bounds, greedy ids and optimized blocks of 853 inputs x 5 environments, plus whole-file CLI runs compared byte for byte; thin TLA+ layer (equality over recorded runs), the quantifier over seeds is sampled",
+         "5 C13 and 9", "seeds and processes are a sample; the Max-SMT path is compared through its encoding files only"),
+ "C14": (MC, "Asm", "TLC (SeqGen) enumerates blocks with split instructions and stores; the real splitter and rebuild run on them; TLC (AsmTrace over Asm) validates split validity, key/sub-block correspondence, stack propagation and rebuild results",
+         "all blocks up to length 3 (quick) / 4 (thorough) over a 12-instruction vocabulary plus long blocks around the partition threshold, three policies: join(subblocks) = optimizable(block), cuts only where the policy allows, every specification key names one sub-block, |src| and delta relations, rebuild with nothing replaced is identity, replacing one sub-block changes only that segment",
+         "5 C14", "the reported split must be a valid split, not a particular heuristic choice; split instructions match by opcode name"),
+ "C17": (MC, "Skeleton", "TLC validates (Push0Trace over Cost/Skeleton) block events and -c runs recorded from the real pipeline",
+         "PUSH0 disabled: no emitted PUSH0 unless in the input; the tool's reported size/gas/length equal the independent Cost.tla tables with the same flag on both sides; with -c only the selected contract's blocks reach the optimizer and the others are unchanged",
+         "5 C17", "gas compared only where no warm access is possible; widths/prices taken from the tool are listed in spec/Cost.tla"),
+})
+PENDING = {}
+
 
 def main():
     checks = []
@@ -66,11 +94,15 @@ def main():
                    "baseline_off_cmd": "cd /repo && /venv/bin/python -m pytest -ra -q -p no:cacheprovider --timeout=900 --continue-on-collection-errors",
                    "source_commits": [], "add_only": True},
          "engines": [
-             {"name": "EVM", "path": "spec/Words.tla spec/EVM.tla spec/Grid.tla spec/EVMEquiv.tla spec/SeqGen.tla spec/Mutate.tla", "serves_properties": ["C01", "C03", "C05", "C08", "C11"], "kind_free_text": "TLA+ 256-bit word library and concrete block semantics; TLC batch equivalence checking on a grid of machine states"},
+             {"name": "EVM", "path": "spec/Words.tla spec/EVM.tla spec/Grid.tla spec/EVMEquiv.tla spec/SeqGen.tla spec/Mutate.tla", "serves_properties": ["C01", "C03", "C05", "C08", "C11"], "kind_free_text": "(with spec/EVMCost.tla spec/CostTrace.tla) TLA+ 256-bit word library and concrete block semantics; TLC batch equivalence checking on a grid of machine states"},
              {"name": "SFSMachine", "path": "spec/SFSMachine.tla spec/SFSTrace.tla spec/SFSSearch.tla spec/SFSCost.tla spec/SoftCost.tla spec/StaticCost.tla spec/SmtLib.tla", "serves_properties": ["C04", "C06", "C07", "C16"], "kind_free_text": "symbolic stack machine over a specification: trace validation and exhaustive bounded search with TLC"},
              {"name": "SFSDenote", "path": "spec/SFSDenote.tla", "serves_properties": ["C02", "C03"], "kind_free_text": "meaning of a specification under every admissible schedule, explored by TLC"},
              {"name": "AsmDoc", "path": "spec/AsmDoc.tla spec/AsmDocGen.tla spec/AsmDocTrace.tla", "serves_properties": ["C15"], "kind_free_text": "abstract solc document, generator and round-trip trace validator"},
              {"name": "Formula", "path": "spec/Formula.tla spec/SExpr.tla spec/FormulaGen.tla spec/FormulaTrace.tla", "serves_properties": ["C18"], "kind_free_text": "formula ASTs with SMT-LIB evaluation, script generator, trace validator"},
+             {"name": "Pipeline", "path": "spec/Pipeline.tla spec/PipelineTrace.tla spec/PipelineFaults.tla spec/PipelineBudget.tla spec/LogMutate.tla spec/ReplayVerdict.tla spec/ReplayItems.tla", "serves_properties": ["C10", "C11"], "kind_free_text": "abstract model of the optimizer's control flow (phases, faults, log, replay) checked by TLC, and its trace validator"},
+             {"name": "Skeleton", "path": "spec/Skeleton.tla spec/SkeletonTrace.tla spec/SkeletonGen.tla spec/Cost.tla spec/Push0Trace.tla", "serves_properties": ["C09", "C17"], "kind_free_text": "skeleton / well-formed items of emitted assembly, independent cost tables, PUSH0 and contract-selection validator"},
+             {"name": "Asm", "path": "spec/Asm.tla spec/AsmTrace.tla", "serves_properties": ["C14"], "kind_free_text": "splitting and rebuilding of blocks"},
+             {"name": "History", "path": "spec/Histories.tla spec/HistoryIndep.tla spec/HistoryModel.tla spec/Lockstep.tla", "serves_properties": ["C12", "C13"], "kind_free_text": "history enumeration, history-independence and lock-step determinism validators"},
          ],
          "checks": checks, "not_applicable": na,
          "notes": "Every check is bin/check <id> --tier quick|thorough; exit 0 / exit 1 + VIOLATION line / exit 2 machinery failure. Known findings: known_findings.json. See DESIGN.md."}
